@@ -296,6 +296,27 @@ def gen_S(seed, klass="S"):
             k += 1
             extra.append(addtype(-43200 + 337 * k, k & 1, r.choice(["LMT", std[1]])))
         extra = list(dict.fromkeys(extra))
+    packed = []
+    if form != "many-types" and version != b"\0" and r.random() < 0.25:
+        # type pairs that differ in exactly one attribute by a power of two (hazards for comparisons done on packed or
+        # narrowed fields): (a) same flag and designation, offsets 2^n apart; (b) same offset, opposite flags,
+        # designation indices exactly 2^m apart (an unused filler designation provides the distance)
+        if r.random() < 0.5:
+            n = r.choice([8, 12, 15, 16])
+            oa = r.randrange(-86399 + (1 << n), 86400)
+            ta = addtype(oa, 0, "PKA")
+            tb = addtype(oa - (1 << n), 0, "PKA")
+            packed = [ta, tb, ta]
+        elif len(abbrs) < 100:
+            mexp = r.choice([5, 6, 7])
+            o = r.randrange(-14 * 4, 14 * 4 + 1) * 900
+            flip = r.randrange(0, 2)
+            k = len(abbrs)
+            t1 = addtype(o, flip, "PKS")
+            abbrs += b"Q" * ((1 << mexp) - 5) + b"\0"
+            assert len(abbrs) == k + (1 << mexp)
+            t2 = addtype(o, 1 - flip, "PKD")
+            packed = [t1, t2, t1]
     if klass in ("S", "S-dst0"):
         Y0 = r.choice([r.randrange(1850, 2200), r.randrange(1800, 3000), 2037, 2007, r.randrange(1970, 2040)])
     elif klass == "S-early":
@@ -340,6 +361,11 @@ def gen_S(seed, klass="S"):
         trans.append((t, ty))
         prev = ty
     trans.append(tl)
+    if packed:
+        t2 = trans[0][0] - r.randrange(20, 400) * SPD
+        t1 = t2 - r.randrange(20, 400) * SPD
+        t0 = t1 - r.randrange(20, 400) * SPD
+        trans = [(t0, packed[0]), (t1, packed[1]), (t2, packed[2])] + trans
     if variant is not None and r.random() < 0.8:
         # make sure the abbreviation-only change happens, in both directions
         t2 = trans[0][0] - r.randrange(20, 400) * SPD
